@@ -420,4 +420,104 @@ theorem scanStep_found (t : Rules) (c : Int) (r : Bool) (bs : List BE) (i h : Na
       simp only [Bool.and_eq_true, decide_eq_true_eq] at hp
       exact ⟨rules, q, rfl, List.mem_of_find?_eq_some hf, hs, hs ▸ hp.2, hp.1⟩
 
+/-- number of explicit hydrogen atoms -/
+def explicitH (atoms : List (Nat × Atom)) : Nat := (atoms.filter (·.2.z == 1)).length
+
+theorem toAdd_spec : ∀ (atoms : List (Nat × Atom)) (l : List Nat), toAdd atoms = some l →
+    implicitTotal atoms = some l.length ∧ ∀ p ∈ atoms, p.2.implH = some 0 ∨ p.1 ∈ l := by
+  intro atoms
+  induction atoms with
+  | nil => intro l h; simp only [toAdd, Option.some.injEq] at h; subst h; simp [implicitTotal, optSum]
+  | cons p tl ih =>
+    intro l h
+    obtain ⟨n, a⟩ := p
+    simp only [toAdd] at h
+    cases hh : a.implH with
+    | none => simp [hh] at h
+    | some k =>
+      cases ht : toAdd tl with
+      | none => simp [hh, ht] at h
+      | some rest =>
+        simp only [hh, ht, Option.some.injEq] at h
+        subst h
+        obtain ⟨h1, h2⟩ := ih rest ht
+        constructor
+        · simp only [implicitTotal] at h1 ⊢
+          simp [optSum, hh, h1]
+        · intro p hp
+          cases List.mem_cons.mp hp with
+          | inl e =>
+            subst e
+            cases k with
+            | zero => left; exact hh
+            | succ k' => right; simp [List.replicate_succ]
+          | inr hp' =>
+            cases h2 p hp' with
+            | inl e => left; exact e
+            | inr e => right; exact List.mem_append_right _ e
+
+theorem explicitH_setH (atoms : List (Nat × Atom)) (n : Nat) (h : Option Nat) :
+    explicitH (atoms.map (setHEntry n h)) = explicitH atoms := by
+  induction atoms with
+  | nil => rfl
+  | cons p tl ih =>
+    simp only [explicitH] at ih ⊢
+    have : (setHEntry n h p).2.z = p.2.z := by
+      simp only [setHEntry]; split <;> rfl
+    simp only [List.map_cons, List.filter_cons, this]
+    split <;> simp [ih]
+
+theorem addHydrogens_spec : ∀ (l : List Nat) (nxt : Nat) (m : Mol),
+    explicitH (addHydrogens l nxt m).atoms = explicitH m.atoms + l.length ∧
+    ∀ p ∈ (addHydrogens l nxt m).atoms, p.2.implH = some 0 ∨
+      ∃ p0 ∈ m.atoms, p0.1 = p.1 ∧ p0.2.implH = p.2.implH ∧ p.1 ∉ l := by
+  intro l
+  induction l with
+  | nil => intro nxt m; exact ⟨by simp [addHydrogens], fun p hp => Or.inr ⟨p, hp, rfl, rfl, by simp⟩⟩
+  | cons n tl ih =>
+    intro nxt m
+    simp only [addHydrogens]
+    obtain ⟨h1, h2⟩ := ih (nxt + 1)
+      ⟨m.atoms.map (setHEntry n (some 0)) ++ [(nxt, { z := 1, implH := some 0 })],
+       (m.adj.map fun p => if p.1 == n then (p.1, p.2 ++ [(nxt, (⟨1, none⟩ : Bond))]) else p) ++ [(nxt, [(n, ⟨1, none⟩)])]⟩
+    constructor
+    · rw [h1]
+      have : explicitH (m.atoms.map (setHEntry n (some 0)) ++ [(nxt, ({ z := 1, implH := some 0 } : Atom))]) =
+          explicitH m.atoms + 1 := by
+        have := explicitH_setH m.atoms n (some 0)
+        simp only [explicitH, List.filter_append, List.length_append] at this ⊢
+        rw [this]; rfl
+      simp only [this, List.length_cons]; omega
+    · intro p hp
+      cases h2 p hp with
+      | inl e => left; exact e
+      | inr e =>
+        obtain ⟨p1, hp1, ek, eh, hnot⟩ := e
+        simp only [List.mem_append, List.mem_map, List.mem_singleton] at hp1
+        cases hp1 with
+        | inr enew => left; rw [← eh, enew]
+        | inl eold =>
+          obtain ⟨p0, hp0, e0⟩ := eold
+          by_cases hk : p0.1 = n
+          · left
+            have : (p0.1 == n) = true := by simp [hk]
+            rw [← eh, ← e0]; simp [setHEntry, this, withH]
+          · have hb : (p0.1 == n) = false := by simp [hk]
+            have e1 : p1 = p0 := by rw [← e0]; simp [setHEntry, hb]
+            subst e1
+            right
+            refine ⟨p1, hp0, ek, eh, ?_⟩
+            intro hmem
+            cases List.mem_cons.mp hmem with
+            | inl e2 => exact hk (ek.trans e2)
+            | inr e2 => exact hnot e2
+
+theorem optSum_all_zero (l : List (Option Nat)) (h : ∀ x ∈ l, x = some 0) : optSum l = some 0 := by
+  induction l with
+  | nil => rfl
+  | cons x tl ih =>
+    have hx := h x (by simp)
+    subst hx
+    simp [optSum, ih (fun y hy => h y (List.mem_cons_of_mem _ hy))]
+
 end ChythonModel.Proofs.C04
